@@ -302,7 +302,7 @@ class Ctx:
         n_ok = sum(1 for v in self.obligations.values() if v)
         concrete = [v for v in self.violations if v["found_input"]]
         # broken obligations without any concrete failing input -> still a violation
-        if self.broken and not concrete and not self.known:
+        if self.broken and not concrete:
             self.violations.append({
                 "property": self.prop, "key": "broken-obligation", "found_input": False,
                 "what": "proof obligation / correspondence no longer checks; failing-input search found nothing",
